@@ -19,8 +19,11 @@ pub enum Kind {
     Chunked,
 }
 
-pub fn post_request(kind: Kind, explicit_te: bool) -> Request<()> {
+pub fn post_request(kind: Kind, explicit_te: bool, ver10: bool) -> Request<()> {
     let mut b = Request::post("http://h.test/upload");
+    if ver10 {
+        b = b.version(ureq_proto::http::Version::HTTP_10);
+    }
     match kind {
         Kind::Sized(n) => b = b.header("content-length", n.to_string()),
         Kind::Chunked => {
@@ -34,7 +37,10 @@ pub fn post_request(kind: Kind, explicit_te: bool) -> Request<()> {
 
 impl Wut {
     pub fn new(api: &str, kind: Kind, explicit_te: bool) -> Wut {
-        let req = post_request(kind, explicit_te);
+        Wut::new_v(api, kind, explicit_te, false)
+    }
+    pub fn new_v(api: &str, kind: Kind, explicit_te: bool, ver10: bool) -> Wut {
+        let req = post_request(kind, explicit_te, ver10);
         let mut buf = vec![0u8; 2048];
         if api == "flow" {
             let mut f = Flow::new(req).unwrap().proceed();
@@ -95,12 +101,14 @@ impl Wut {
 }
 
 pub fn start_case(t: &mut Tracer, api: &str, kind: Kind, explicit_te: bool, note: &str) -> Wut {
-    let w = Wut::new(api, kind, explicit_te);
+    // every fourth writer belongs to an HTTP/1.0 request (POST exists there too)
+    let ver10 = t.cases % 4 == 3;
+    let w = Wut::new_v(api, kind, explicit_te, ver10);
     let (k, n) = match kind {
         Kind::Sized(n) => ("sized", n),
         Kind::Chunked => ("chunked", 0),
     };
-    t.case(json!({"ev":"case","comp":"bw","kind":k,"N":limbs(n),"ready0":w.ready(),"api":api,"note":note}));
+    t.case(json!({"ev":"case","comp":"bw","kind":k,"N":limbs(n),"ready0":w.ready(),"api":api,"note":note,"ver10":ver10}));
     w
 }
 
@@ -511,7 +519,7 @@ pub fn c19(o: &Opts, t: &mut Tracer) {
     for (i, &outl) in outs.iter().enumerate() {
         let api = APIS[i % 2];
         // M(out) from a flow (the single-call API has no such query)
-        let m = Wut::new("flow", kind, false).max_input(outl).unwrap_or(0);
+        let m = Wut::new_v("flow", kind, false, i % 4 == 3).max_input(outl).unwrap_or(0);
         let mut ins = vec![m, 1, m.saturating_sub(1), m + 1, 2 * m, outl, outl + 1, outl.saturating_sub(5), outl.saturating_sub(4), 3 * 10240 + 1];
         ins.retain(|&x| x >= 1 && x <= data.len());
         let mut seen = std::collections::HashSet::new();
